@@ -246,6 +246,7 @@ def check_all(ctx, module_suffixes=None, funcs=None, rules=('DEADPARAM', 'FORWAR
     out['returns'] = mixed_returns(ctx, funcs)
     out['shadow'] = instance_shadow_updates(ctx, funcs)
     out['lengths'] = stale_lengths(ctx, funcs)
+    out['gates'] = stale_loop_gates(ctx, funcs)
     out['bounds'] = index_vs_len(ctx, funcs)
     from . import memo
     out['memo'] = memo.check(ctx, funcs)
@@ -512,6 +513,50 @@ def stale_lengths(ctx, funcs, rule='DEFUSE'):
                                   f"`{norm(st)}` is taken before `{norm(body[j])[:60]}` changes `{seq}`, and `{name}` is read after "
                                   f"that: the count belongs to the list as it was (a chain that standardisation shortens is treated "
                                   f"as longer than it is)", key=f"{rule}|{fi.qualname}|stale-len|{name}", where=common.loc(fi, st))
+    return n
+
+
+def stale_loop_gates(ctx, funcs, rule='DEFUSE'):
+    """
+    A condition computed ONCE from the contents of a list (`any(...)` /
+    `all(...)` / a comprehension over it), in front of a loop that keeps
+    re-assigning that list and reads the condition in every round: the
+    answer describes the list as it was before the first round (a later round
+    can create exactly the situation the condition was meant to detect).
+    Empty baseline.
+    """
+    n = 0
+    for fi in funcs:
+        body = fi.node.body
+        for i, st in enumerate(body):
+            if not (isinstance(st, ast.Assign) and len(st.targets) == 1 and isinstance(st.targets[0], ast.Name)):
+                continue
+            gate = st.targets[0].id
+            v = st.value
+            scans = [c for c in ast.walk(v) if (isinstance(c, ast.Call) and dotted(c.func) in ('any', 'all', 'sum', 'max', 'min'))
+                     or isinstance(c, (ast.GeneratorExp, ast.ListComp))]
+            if not scans:
+                continue
+            seqs = {x.id for x in ast.walk(v) if isinstance(x, ast.Name) and isinstance(x.ctx, ast.Load)} - {gate}
+            for lp in body[i + 1:]:
+                if not isinstance(lp, (ast.While, ast.For)):
+                    continue
+                reassigned = {y.id for y in ast.walk(lp) if isinstance(y, ast.Name) and isinstance(y.ctx, ast.Store)}
+                hot = sorted(seqs & reassigned)
+                reads = [y for y in ast.walk(lp) if isinstance(y, ast.Name) and isinstance(y.ctx, ast.Load) and y.id == gate]
+                retaken = gate in reassigned
+                if hot and reads and not retaken:
+                    # only if the list is re-derived from itself (it really changes from round to round)
+                    self_fed = any(isinstance(a, ast.Assign) and any(isinstance(t, ast.Name) and t.id == hot[0] for t in a.targets)
+                                   and any(isinstance(x, ast.Name) and x.id == hot[0] for x in ast.walk(a.value)) for a in ast.walk(lp))
+                    if not self_fed:
+                        continue
+                    n += 1
+                    ctx.violation(rule, f"{fi.qualname}: `{gate}` is recomputed when `{hot[0]}` changes",
+                                  f"`{norm(st)[:70]}` is evaluated once, before the loop at line {lp.lineno}; that loop re-assigns "
+                                  f"`{hot[0]}` in every round and still decides by `{gate}`: a situation that only arises after a "
+                                  f"round (two halves combined into a quarter that now stands in front of a half) is never seen",
+                                  key=f"{rule}|{fi.qualname}|stale-gate|{gate}", where=common.loc(fi, st))
     return n
 
 
